@@ -171,8 +171,72 @@ def obs_events(chk):
     chk.sample('obs-event', batch.events[0], 1)
 
 
+def replay_music(chk, st, rng):
+    """Music.tla: exact denominators of the MUSIC pseudo-spectrum for noiseless exponentials on the 4-point grid."""
+    from spectrum.eigenfre import eigen
+    from spectrum import pmusic
+    from .. import material as M
+    P, tones = st['P'], sorted(st['tones'])
+    K = len(tones)
+    D = [float(M.rat(v)) for v in st['den']]            # D[j] = denominator at code bin j (before the re-ordering)
+    for N in sorted({2 * P + 1, 12, 17}):
+        n = np.arange(N)
+        amps = [(1.0 + 0j), (0.5 - 1.5j), (2.0 + 1j)][:K] if K <= 3 else None
+        x = sum(a * (1j) ** ((m * n) % 4) for a, m in zip(amps, tones))
+        for c in (1, 2, 3):
+            nfft = 4 * c
+            if nfft < P:
+                continue
+            case = {'P': P, 'tones': tones, 'N': N, 'NFFT': nfft, 'expect_denominators_by_bin': {m: D[(4 - m) % 4] for m in range(4)}}
+            ok, res = call_guard(eigen, x.copy(), P, NSIG=K, method='music', NFFT=nfft)
+            chk.evaluations += 1
+            if not ok:
+                chk.violation('C17:music-exact:raises', 'eigen(music) raises %r on %d noiseless on-grid exponentials, P=%d' % (res, K, P), case)
+                continue
+            psd = np.asarray(res[0], dtype=float)
+            if len(psd) != nfft:
+                chk.violation('C17:music-exact:length', 'pseudo-spectrum has %d values for NFFT=%d' % (len(psd), nfft), case)
+                continue
+            with np.errstate(all='ignore'):
+                den = 1.0 / psd
+            half = nfft // 2
+            bad = None
+            for m in range(4):
+                mc = m if m < 2 else m - 4                    # centred bin -2..1 of the 4-point grid
+                got = den[half + c * mc]
+                exp = D[(4 - m) % 4]
+                if not np.isfinite(got) or abs(got - exp) > 1e-7 * P:
+                    bad = 'bin %d/4: 1/pseudo-spectrum = %r, exact value %r' % (m, got, exp)
+                    break
+            if bad:
+                chk.violation('C17:music-exact:%s' % ('at-a-tone' if exp == 0 else 'off-tone'),
+                              'eigen(x, P=%d, NSIG=%d, music, NFFT=%d) for tones at bins %s of the 4-point grid: %s' % (P, K, nfft, tones, bad), case)
+            # the class reports the same values on its own axis (two-sided: bin k at entry k)
+            ok, obj = call_guard(lambda: pmusic(x.copy(), P, NSIG=K, NFFT=nfft, scale_by_freq=False))
+            if ok:
+                ok, v = call_guard(lambda: np.array(obj.psd, dtype=float))
+            if not ok or len(v) != nfft:
+                chk.violation('C17:music-exact:class-raises-or-length', 'pmusic raises or returns a wrong length', case)
+            else:
+                with np.errstate(all='ignore'):
+                    dv = 1.0 / v
+                for m in range(4):
+                    exp = D[(4 - m) % 4]
+                    if not np.isfinite(dv[c * m]) or abs(dv[c * m] - exp) > 1e-7 * P:
+                        chk.violation('C17:music-exact:class:%s' % ('at-a-tone' if exp == 0 else 'off-tone'),
+                                      'pmusic(P=%d, NSIG=%d, NFFT=%d), tones %s: entry %d has 1/psd = %r, exact value %r' % (P, K, nfft, tones, c * m, dv[c * m], exp), case)
+                        break
+    chk.replayed += 1
+    chk.count('music-exact', 'replayed')
+    if P == 3 and K == 2:
+        chk.sample('music-exact', {'P': P, 'tones': tones, 'den': st['den']}, 1)
+
+
 def run(chk):
     rng = np.random.RandomState(1750 + chk.seed)
+    core.run_jobs(chk, [{'module': 'Music', 'part': 'music-exact',
+                         'cfg': tlc._cfg_text(constants={'MaxP': 4}, invariants=['NoOverflow', 'PeaksExactlyAtTones', 'PositiveElsewhere', 'AtMostP', 'GridSum']),
+                         'replay': lambda st: replay_music(chk, st, rng)}])
     cfg = tlc._cfg_text(constants={'P': P_SPEC, 'MaxN': 14 if chk.tier == 'quick' else 24},
                         invariants=['IndicesInRange', 'Structure', 'MutuallyExclusive'])
     core.run_jobs(chk, [{'module': 'EigenArgs', 'cfg': cfg, 'part': 'eigen-args-and-matrix', 'replay': lambda st: replay_state(chk, st, rng)}])
